@@ -36,6 +36,31 @@ use crate::engine::uci::bench::bench;
 use crate::engine::util::sync::LockLatch;
 pub use r#move::UciMove;
 
+/// Verification hook H3: named delay/trace points between the critical sections of the input
+/// thread and the search thread. Each sleeps for the number of milliseconds given for it in
+/// env `VERIF_UCI_DELAYS` (`name=ms,name=ms`; default 0) and, if `VERIF_UCI_TRACE=1`, writes a
+/// line to stderr. All points are places where the OS may preempt the thread anyway.
+#[cfg(jgilchrist_tcheran_verif)]
+fn verif_point(name: &str) {
+    if std::env::var("VERIF_UCI_TRACE").is_ok_and(|v| v == "1") {
+        static START: std::sync::OnceLock<Instant> = std::sync::OnceLock::new();
+        let ns = START.get_or_init(Instant::now).elapsed().as_nanos();
+        eprintln!("verif-trace {name} {ns}");
+    }
+
+    if let Ok(delays) = std::env::var("VERIF_UCI_DELAYS") {
+        for item in delays.split(',') {
+            if let Some((point, ms)) = item.split_once('=') {
+                if point == name {
+                    if let Ok(ms) = ms.parse::<u64>() {
+                        std::thread::sleep(Duration::from_millis(ms));
+                    }
+                }
+            }
+        }
+    }
+}
+
 #[derive(Clone)]
 pub struct UciReporter {
     pub pretty_output: bool,
@@ -271,6 +296,8 @@ impl Uci {
             UciCommand::UciNewGame => {
                 self.game = Game::new();
                 self.is_stopped.reset();
+                #[cfg(jgilchrist_tcheran_verif)]
+                verif_point("newgame.after_reset");
 
                 let mut persistent_state_handle = self.persistent_state.lock().unwrap();
                 persistent_state_handle.reset();
@@ -333,6 +360,8 @@ impl Uci {
                 let is_stopped = self.is_stopped.clone();
 
                 let join_handle = std::thread::spawn(move || {
+                    #[cfg(jgilchrist_tcheran_verif)]
+                    verif_point("go.before_lock");
                     let mut persistent_state_handle = persistent_state.lock().unwrap();
 
                     let best_move = search::search(
@@ -344,8 +373,14 @@ impl Uci {
                         &mut reporter,
                     );
 
+                    #[cfg(jgilchrist_tcheran_verif)]
+                    verif_point("go.after_search");
                     reporter.best_move(&game, best_move);
+                    #[cfg(jgilchrist_tcheran_verif)]
+                    verif_point("go.after_bestmove");
                     is_stopped.set();
+                    #[cfg(jgilchrist_tcheran_verif)]
+                    verif_point("go.after_latch_set");
                 });
 
                 if self.block_on_threads {
@@ -355,6 +390,8 @@ impl Uci {
             UciCommand::Stop => {
                 if let Some(c) = self.control.as_mut() {
                     c.stop();
+                    #[cfg(jgilchrist_tcheran_verif)]
+                    verif_point("stop.before_wait");
                     self.is_stopped.wait();
                 }
 
